@@ -147,8 +147,25 @@ func runProc(spec Spec, bin, scratch, test, seed string, idx int, extraArgs []st
 	return pr
 }
 
-// Run executes the check and returns the exit code.
+// Run executes the check, writes the evidence file and returns the exit code.
 func Run(spec Spec) int {
+	code, ev := RunCollect(spec)
+	if ev != nil {
+		if err := ev.Write(jbuild.VerifDir()); err != nil {
+			fmt.Fprintln(os.Stderr, err)
+			return 2
+		}
+	}
+	return code
+}
+
+// RunCollect executes the check and returns the exit code and the evidence (nil on infrastructure trouble).
+func RunCollect(spec Spec) (int, *evidence.Evidence) {
+	code, ev := runCollect(spec)
+	return code, ev
+}
+
+func runCollect(spec Spec) (int, *evidence.Evidence) {
 	start := time.Now()
 	if spec.Timeout == 0 {
 		spec.Timeout = 30 * time.Minute
@@ -160,7 +177,7 @@ func Run(spec Spec) int {
 	scratch, err := os.MkdirTemp(base, "verif-"+strings.ToLower(spec.Property)+"-")
 	if err != nil {
 		fmt.Fprintln(os.Stderr, err)
-		return 2
+		return 2, nil
 	}
 	if os.Getenv("VERIF_KEEP") == "" {
 		defer os.RemoveAll(scratch)
@@ -168,12 +185,12 @@ func Run(spec Spec) int {
 	bin, err := build(spec, scratch)
 	if err != nil {
 		fmt.Fprintln(os.Stderr, err)
-		return 2
+		return 2, nil
 	}
 	kf, err := known.Load(jbuild.VerifDir())
 	if err != nil {
 		fmt.Fprintln(os.Stderr, err)
-		return 2
+		return 2, nil
 	}
 	type job struct {
 		test, seed string
@@ -216,7 +233,7 @@ func Run(spec Spec) int {
 	for _, pr := range results {
 		if pr.timedOut {
 			fmt.Fprintf(os.Stderr, "watchdog: harness test %s did not finish within %v\n", pr.test, spec.Timeout)
-			return 2
+			return 2, nil
 		}
 		var vio []rec
 		for _, r := range pr.recs {
@@ -242,7 +259,7 @@ func Run(spec Spec) int {
 		if pr.exit != 0 && len(vio) == 0 {
 			// the harness itself failed (panic, build trouble inside the test, rapid misuse): never a VIOLATION
 			fmt.Fprintf(os.Stderr, "infrastructure failure in harness test %s (exit %d):\n%s\n", pr.test, pr.exit, tailStr(pr.output, 4000))
-			return 2
+			return 2, nil
 		}
 		if pr.failFile != "" && len(vio) > 0 {
 			// rapid shrinks: the last violation record belongs to the minimal failing sequence
@@ -266,7 +283,7 @@ func Run(spec Spec) int {
 			path, err := evidence.WriteReplay(jbuild.VerifDir(), rp)
 			if err != nil {
 				fmt.Fprintln(os.Stderr, err)
-				return 2
+				return 2, nil
 			}
 			fmt.Printf("VIOLATION property=%s replay=%s\n", spec.Property, path)
 			fmt.Printf("  class=%s %s\n", v.Class, firstLines(v.Msg, 12))
@@ -300,15 +317,11 @@ func Run(spec Spec) int {
 		},
 		Assumptions: spec.Assumptions,
 	}
-	if err := ev.Write(jbuild.VerifDir()); err != nil {
-		fmt.Fprintln(os.Stderr, err)
-		return 2
-	}
 	fmt.Printf("%s %s: %d evaluations (%d distinct non-trivial), %d harness processes, %d violations, %d known findings hit, %.1fs\n", spec.Property, spec.Tier, evals, distinct, len(jobs), violations, len(kids), wall)
 	if violations > 0 {
-		return 1
+		return 1, ev
 	}
-	return 0
+	return 0, ev
 }
 
 func tailStr(s string, n int) string {
